@@ -1,5 +1,6 @@
 import RpmVerif.Driver.Common
 import RpmVerif.Model.Header
+import RpmVerif.Model.PgpFraming
 /-! Driver for C04. Op `hostile BYTES`. The implementation's observation lists an outcome class per
 read-side stage; the model predicts the parse stages (ok / err — it has no reachable panic, Props/C04)
 and copies the classes of stages it does not model. Spec: no stage may be `panic`, the process may not
@@ -8,11 +9,32 @@ end even for a consumer that keeps pulling after an error (`iter=runaway`: unbou
 namespace RpmVerif.Driver.C04
 open RpmVerif.Hdr RpmVerif.Driver
 
-def ops : List String := ["hostile"]
+def ops : List String := ["hostile", "pgpframes"]
 
 def clsOf {α} : Out α → String | .ok _ => "ok" | .err _ => "err" | .panic _ => "panic"
 
-def handle (_op : String) (args : List String) (impl : String) : String :=
+/-- `pgpframes BLOB`: the packet framing applied to a signature blob (`split_packets`, through the verification
+hook): `none` or `ok:<len>,<len>,…`. Spec: every packet lies inside the blob and together they are the blob. -/
+def framesHandle (bs : Bytes) (impl : String) : String :=
+  let m := match RpmVerif.Pgp.splitPackets bs with
+    | none => "none"
+    | some ps => "ok:" ++ ",".intercalate (ps.map fun p => toString p.length)
+  let v :=
+    if impl == "none" then "holds"
+    else if impl.startsWith "ok:" then
+      let lens := ((impl.drop 3).toString.splitOn ",").filterMap (·.toNat?)
+      let lens := if (impl.drop 3).toString.isEmpty then [] else lens
+      if lens.foldl (· + ·) 0 == bs.length && lens.all (fun l => decide (1 ≤ l ∧ l ≤ bs.length)) then "holds"
+      else "fails:packet-beyond-blob"
+    else "fails:malformed"
+  answer m v (match RpmVerif.Pgp.splitPackets bs with | none => "frames-refused" | some ps => s!"frames-{min ps.length 3}")
+
+def handle (op : String) (args : List String) (impl : String) : String :=
+  if op == "pgpframes" then
+    match args with
+    | [hb] => match bytesOfHex hb with | some bs => framesHandle bs impl | none => badReq "hex"
+    | _ => badReq "args"
+  else
   match args with
   | [hb] =>
     match bytesOfHex hb with
@@ -21,12 +43,12 @@ def handle (_op : String) (args : List String) (impl : String) : String :=
       let pm := clsOf (parsePackage bs)
       let mm := clsOf (parseMetadata bs)
       let toks := (impl.splitOn " ").filter (· ≠ "")
-      let bad := toks.filter fun t => t == "abort" || t == "alloc-excess" || t.endsWith "=panic" || t == "iter=runaway"
+      let bad := toks.filter fun t => t == "abort" || t.startsWith "alloc-excess" || t.endsWith "=panic" || t == "iter=runaway"
       let rest := toks.filter fun t => !(t.startsWith "parse=" || t.startsWith "meta=")
-      let model := " ".intercalate ([s!"parse={pm}", s!"meta={mm}"] ++ rest.filter (fun t => t != "abort" && t != "alloc-excess"))
+      let model := " ".intercalate ([s!"parse={pm}", s!"meta={mm}"] ++ rest.filter (fun t => t != "abort" && !t.startsWith "alloc-excess"))
       let verdict := match bad with
         | [] => "holds"
-        | b :: _ => "fails:" ++ (b.replace "=" "-")
+        | b :: _ => "fails:" ++ ((b.replace "=" "-").replace ":" "-")
       let errBranch := match parseMetadata bs with | .err c => c | .ok _ => "accepted" | .panic s => "panic-" ++ s
       answer model verdict ("meta-" ++ errBranch)
   | _ => badReq "args"
